@@ -22,3 +22,60 @@ func (v *VerifBlackHoleDetector) FilterAddrs(addrs []ma.Multiaddr) (valid, black
 func (v *VerifBlackHoleDetector) RecordResult(addr ma.Multiaddr, success bool) {
 	v.d.RecordResult(addr, success)
 }
+
+// VerifSwarmState is a snapshot of the swarm's internal dial / notification bookkeeping. It is only a
+// consistent cut when the swarm is quiescent.
+type VerifSwarmState struct {
+	ActiveDials           int // peers with a dial worker (dialSync)
+	DialRefs              int // callers currently inside dialSync.Dial
+	LimiterFDConsuming    int
+	LimiterWaitingOnFD    int
+	LimiterActivePerPeer  int // sum over peers
+	LimiterWaitingOnPeer  int // sum over peers
+	EmitterConnected      int
+	EmitterPending        int
+	DirectConnWaiters     int
+	Conns                 int
+	FDLimit, PerPeerLimit int
+}
+
+func VerifState(s *Swarm) VerifSwarmState {
+	var st VerifSwarmState
+	s.dsync.mutex.Lock()
+	st.ActiveDials = len(s.dsync.dials)
+	for _, ad := range s.dsync.dials {
+		st.DialRefs += ad.refCnt
+	}
+	s.dsync.mutex.Unlock()
+
+	s.limiter.lk.Lock()
+	st.LimiterFDConsuming = s.limiter.fdConsuming
+	st.LimiterWaitingOnFD = len(s.limiter.waitingOnFd)
+	for _, n := range s.limiter.activePerPeer {
+		st.LimiterActivePerPeer += n
+	}
+	for _, w := range s.limiter.waitingOnPeerLimit {
+		st.LimiterWaitingOnPeer += len(w)
+	}
+	st.FDLimit, st.PerPeerLimit = s.limiter.fdLimit, s.limiter.perPeerLimit
+	s.limiter.lk.Unlock()
+
+	e := s.connectionEventsEmitter
+	e.notifsLk.Lock()
+	st.EmitterConnected = len(e.connected)
+	st.EmitterPending = len(e.pendingDisconnect)
+	e.notifsLk.Unlock()
+
+	s.directConnNotifs.Lock()
+	for _, chs := range s.directConnNotifs.m {
+		st.DirectConnWaiters += len(chs)
+	}
+	s.directConnNotifs.Unlock()
+
+	s.conns.RLock()
+	for _, cs := range s.conns.m {
+		st.Conns += len(cs)
+	}
+	s.conns.RUnlock()
+	return st
+}
